@@ -33,6 +33,10 @@ def _worker_init():
     import warnings
 
     warnings.filterwarnings("ignore")
+    import logging
+
+    logging.getLogger("jax._src.callback").setLevel(logging.CRITICAL)
+    logging.getLogger("jax._src.debugging").setLevel(logging.CRITICAL)
     import jax
 
     cache = os.path.join(K.VERIF_ROOT, ".cache", "xla")
